@@ -1,18 +1,257 @@
 package fakecluster
 
 import (
+	"fmt"
+	"sort"
 	"sync"
+	"time"
 
+	"verifharness/core"
 	"verifharness/refcodec"
 )
 
-type Group struct {
-	ID   string
-	cond *sync.Cond
+// Group coordinator: the state machine of the Kafka group coordinator
+// (Empty / PreparingRebalance / CompletingRebalance / Stable), generation
+// counter, leader election, join and sync barriers, heartbeat answers,
+// generation-checked commits and the committed-offset store. Membership
+// expiry and forced rebalances are driven by the scenario (GroupEvict,
+// GroupRebalance), not by session timers; the only timer is JoinWindow, the
+// short delay a coordinator waits for further joiners before it completes a
+// join round.
+
+type GroupState string
+
+const (
+	GroupEmpty               GroupState = "Empty"
+	GroupPreparingRebalance  GroupState = "PreparingRebalance"
+	GroupCompletingRebalance GroupState = "CompletingRebalance"
+	GroupStable              GroupState = "Stable"
+)
+
+type Member struct {
+	ID        string
+	ClientID  string
+	Protocols []refcodecProtocol
+	// joined in the current join round
+	joined   bool
+	synced   bool
+	JoinedAt int64
+	// session bookkeeping (wall clock, as a real coordinator does)
+	lastSeen       time.Time
+	sessionTimeout time.Duration
+	rebalanceTO    time.Duration
 }
 
-// CoordinatorFor decides which broker coordinates a group (scenario hook;
-// default: the controller).
+type refcodecProtocol struct {
+	Name     string
+	Metadata []byte
+}
+
+type GroupCommit struct {
+	Seq        int64
+	MemberID   string
+	Generation int32
+	Topic      string
+	Partition  int32
+	Offset     int64
+	ClientID   string
+}
+
+type GroupFetch struct {
+	Seq       int64
+	ClientID  string
+	Topic     string
+	Partition int32
+	Offset    int64 // -1 = none committed
+}
+
+type GroupEvent struct {
+	Seq        int64
+	Kind       string // join-complete | sync-complete | leave | evict | rebalance-forced | heartbeat-error
+	Generation int32
+	MemberID   string
+	Detail     string
+}
+
+type Group struct {
+	ID          string
+	State       GroupState
+	Generation  int32
+	Members     map[string]*Member
+	Leader      string
+	Protocol    string
+	Assignments map[string][]byte
+	Committed   map[string]int64 // "topic/partition" -> offset
+	nextMember  int
+	cond        *sync.Cond
+	joinStarted time.Time
+	// history for the monitors
+	Commits []GroupCommit
+	Fetches []GroupFetch
+	Events  []GroupEvent
+	// AssignmentsByGen: generation -> member -> decoded assignment (topic -> partitions)
+	AssignmentsByGen map[int32]map[string]map[string][]int32
+}
+
+// JoinWindow is how long a join round stays open for further joiners after
+// the first JoinGroup arrived (all known members rejoining closes it at once).
+var JoinWindow = 3 * time.Millisecond
+
+func (c *Cluster) groupLocked(id string) *Group {
+	g := c.Groups[id]
+	if g == nil {
+		g = &Group{ID: id, State: GroupEmpty, Members: map[string]*Member{}, Committed: map[string]int64{}, AssignmentsByGen: map[int32]map[string]map[string][]int32{}}
+		g.cond = sync.NewCond(&c.mu)
+		c.Groups[id] = g
+	}
+	return g
+}
+
+// Group returns a snapshot copy of the group's history (commits, fetches, events).
+func (c *Cluster) GroupHistory(id string) (commits []GroupCommit, fetches []GroupFetch, events []GroupEvent, assignments map[int32]map[string]map[string][]int32) {
+	c.mu.Lock()
+	defer c.mu.Unlock()
+	g := c.Groups[id]
+	if g == nil {
+		return
+	}
+	assignments = map[int32]map[string]map[string][]int32{}
+	for gen, m := range g.AssignmentsByGen {
+		assignments[gen] = m
+	}
+	return append([]GroupCommit(nil), g.Commits...), append([]GroupFetch(nil), g.Fetches...), append([]GroupEvent(nil), g.Events...), assignments
+}
+
+func (c *Cluster) GroupSnapshot(id string) (state GroupState, gen int32, members []string) {
+	c.mu.Lock()
+	defer c.mu.Unlock()
+	g := c.Groups[id]
+	if g == nil {
+		return GroupEmpty, 0, nil
+	}
+	for m := range g.Members {
+		members = append(members, m)
+	}
+	sort.Strings(members)
+	return g.State, g.Generation, members
+}
+
+// GroupCommitted returns the committed offset (-1 if none).
+func (c *Cluster) GroupCommitted(id, topic string, part int32) int64 {
+	c.mu.Lock()
+	defer c.mu.Unlock()
+	g := c.Groups[id]
+	if g == nil {
+		return -1
+	}
+	if o, ok := g.Committed[fmt.Sprintf("%s/%d", topic, part)]; ok {
+		return o
+	}
+	return -1
+}
+
+// GroupEvict removes a member as a session expiry would (scenario trigger).
+func (c *Cluster) GroupEvict(id, member string) {
+	c.mu.Lock()
+	defer c.mu.Unlock()
+	g := c.Groups[id]
+	if g == nil || g.Members[member] == nil {
+		return
+	}
+	delete(g.Members, member)
+	g.Events = append(g.Events, GroupEvent{Seq: core.Tick(), Kind: "evict", Generation: g.Generation, MemberID: member})
+	c.prepareRebalanceLocked(g, "evict "+member)
+}
+
+// GroupEvictClient evicts the member(s) whose client id matches.
+func (c *Cluster) GroupEvictClient(id, clientID string) {
+	c.mu.Lock()
+	var ids []string
+	if g := c.Groups[id]; g != nil {
+		for _, m := range g.Members {
+			if m.ClientID == clientID {
+				ids = append(ids, m.ID)
+			}
+		}
+	}
+	c.mu.Unlock()
+	for _, m := range ids {
+		c.GroupEvict(id, m)
+	}
+}
+
+// GroupRebalance forces a rebalance (as a metadata change or a new member would).
+func (c *Cluster) GroupRebalance(id string) {
+	c.mu.Lock()
+	defer c.mu.Unlock()
+	g := c.Groups[id]
+	if g == nil {
+		return
+	}
+	g.Events = append(g.Events, GroupEvent{Seq: core.Tick(), Kind: "rebalance-forced", Generation: g.Generation})
+	c.prepareRebalanceLocked(g, "forced")
+}
+
+// expireLocked applies the two timers a real coordinator has: members that
+// did not show up for their session timeout are removed, and a join round
+// that has been open for the rebalance timeout is completed without the
+// members that did not rejoin.
+func (c *Cluster) expireLocked(g *Group) {
+	now := time.Now()
+	for id, m := range g.Members {
+		if m.sessionTimeout > 0 && g.State != GroupPreparingRebalance && now.Sub(m.lastSeen) > m.sessionTimeout {
+			delete(g.Members, id)
+			g.Events = append(g.Events, GroupEvent{Seq: core.Tick(), Kind: "session-expired", Generation: g.Generation, MemberID: id})
+			c.prepareRebalanceLocked(g, "session expired "+id)
+		}
+	}
+	if g.State == GroupPreparingRebalance {
+		var to time.Duration
+		for _, m := range g.Members {
+			if m.rebalanceTO > to {
+				to = m.rebalanceTO
+			}
+		}
+		if to > 0 && now.Sub(g.joinStarted) > to {
+			for id, m := range g.Members {
+				if !m.joined {
+					delete(g.Members, id)
+					g.Events = append(g.Events, GroupEvent{Seq: core.Tick(), Kind: "rebalance-timeout-removed", Generation: g.Generation, MemberID: id})
+				}
+			}
+			if len(g.Members) == 0 {
+				g.State = GroupEmpty
+			}
+			g.cond.Broadcast()
+		}
+	}
+}
+
+func (c *Cluster) touchLocked(gid, mid string) {
+	if g := c.Groups[gid]; g != nil {
+		if m := g.Members[mid]; m != nil {
+			m.lastSeen = time.Now()
+		}
+	}
+}
+
+func (c *Cluster) prepareRebalanceLocked(g *Group, why string) {
+	if len(g.Members) == 0 {
+		g.State = GroupEmpty
+		g.cond.Broadcast()
+		return
+	}
+	if g.State != GroupPreparingRebalance {
+		g.State = GroupPreparingRebalance
+		g.joinStarted = time.Now()
+		for _, m := range g.Members {
+			m.joined = false
+			m.synced = false
+		}
+	}
+	g.cond.Broadcast()
+}
+
 func (c *Cluster) coordinatorLocked(key string) *Broker {
 	if c.CoordinatorOf != nil {
 		if b := c.Brokers[c.CoordinatorOf(key)]; b != nil {
@@ -22,17 +261,428 @@ func (c *Cluster) coordinatorLocked(key string) *Broker {
 	return c.Brokers[c.Controller]
 }
 
+func decodeAssignment(b []byte) map[string][]int32 {
+	// consumer protocol assignment: version int16, topics [ {topic string, partitions []int32} ], userdata bytes
+	r := &refcodec.R{B: b}
+	r.I16()
+	n := r.I32()
+	out := map[string][]int32{}
+	for i := int64(0); i < n && r.Err == nil; i++ {
+		tl := r.I16()
+		if tl < 0 || int(tl) > r.Remain() {
+			break
+		}
+		topic := string(r.B[r.Off : r.Off+int(tl)])
+		r.Off += int(tl)
+		pn := r.I32()
+		var ps []int32
+		for j := int64(0); j < pn && r.Err == nil; j++ {
+			ps = append(ps, int32(r.I32()))
+		}
+		out[topic] = ps
+	}
+	return out
+}
+
 func (c *Cluster) groupAPI(rc *ReqCtx) map[string]any {
+	b := rc.Body
 	switch rc.Ev.API {
 	case KFindCoordinator:
 		c.mu.Lock()
 		defer c.mu.Unlock()
 		rc.Ev.Fate = FateServed
-		b := c.coordinatorLocked(refcodec.Str(rc.Body["Key"]))
-		if b == nil {
+		br := c.coordinatorLocked(refcodec.Str(b["Key"]))
+		if br == nil {
 			return map[string]any{"ErrorCode": int64(15), "NodeId": int64(-1), "Host": "", "Port": int64(-1)}
 		}
-		return map[string]any{"ErrorCode": int64(0), "NodeId": int64(b.ID), "Host": b.Host, "Port": int64(b.Port)}
+		return map[string]any{"ErrorCode": int64(0), "NodeId": int64(br.ID), "Host": br.Host, "Port": int64(br.Port)}
+	case KJoinGroup:
+		return c.joinGroup(rc)
+	case KSyncGroup:
+		return c.syncGroup(rc)
+	case KHeartbeat:
+		c.mu.Lock()
+		defer c.mu.Unlock()
+		rc.Ev.Fate = FateServed
+		gid := refcodec.Str(b["GroupId"])
+		code := c.checkMemberLocked(rc, gid, refcodec.Str(b["MemberId"]), int32(refcodec.Int(b["GenerationId"])), true)
+		if code == 0 {
+			g := c.Groups[gid]
+			if g.State != GroupStable {
+				code = 27
+			}
+		}
+		rc.Ev.Code = int16(code)
+		return map[string]any{"ErrorCode": int64(code), "ThrottleTimeMs": int64(0)}
+	case KLeaveGroup:
+		c.mu.Lock()
+		defer c.mu.Unlock()
+		rc.Ev.Fate = FateApplied
+		gid := refcodec.Str(b["GroupId"])
+		mid := refcodec.Str(b["MemberId"])
+		if rc.Ev.Version >= 3 {
+			for _, m := range refcodec.Arr(b["Members"]) {
+				mid = refcodec.Str(refcodec.Map(m)["MemberId"])
+			}
+		}
+		code := int64(0)
+		if br := c.coordinatorLocked(gid); br == nil || br.ID != rc.Broker.ID {
+			code = 16
+		} else if g := c.Groups[gid]; g == nil || g.Members[mid] == nil {
+			code = 25
+		} else {
+			delete(g.Members, mid)
+			g.Events = append(g.Events, GroupEvent{Seq: core.Tick(), Kind: "leave", Generation: g.Generation, MemberID: mid})
+			c.prepareRebalanceLocked(g, "leave")
+		}
+		rc.Ev.Code = int16(code)
+		return map[string]any{"ErrorCode": code, "ThrottleTimeMs": int64(0), "Members": []any{}}
+	case KOffsetCommit:
+		return c.offsetCommit(rc)
+	case KOffsetFetch:
+		return c.offsetFetch(rc)
 	}
+	rc.Ev.Fate = FateRejected
 	return map[string]any{"ErrorCode": int64(15)}
+}
+
+// checkMemberLocked validates coordinator / member / generation.
+func (c *Cluster) checkMemberLocked(rc *ReqCtx, gid, mid string, gen int32, needGen bool) int64 {
+	if br := c.coordinatorLocked(gid); br == nil || br.ID != rc.Broker.ID {
+		return 16
+	}
+	g := c.Groups[gid]
+	if g != nil {
+		c.expireLocked(g)
+	}
+	if g == nil || g.Members[mid] == nil {
+		return 25
+	}
+	g.Members[mid].lastSeen = time.Now()
+	if needGen && gen != g.Generation {
+		return 22
+	}
+	return 0
+}
+
+func (c *Cluster) joinGroup(rc *ReqCtx) map[string]any {
+	b := rc.Body
+	gid := refcodec.Str(b["GroupId"])
+	mid := refcodec.Str(b["MemberId"])
+	fail := func(code int64) map[string]any {
+		rc.Ev.Code = int16(code)
+		rc.Ev.Fate = FateRejected
+		return map[string]any{"ErrorCode": code, "GenerationId": int64(-1), "ProtocolName": "", "Leader": "", "MemberId": mid, "Members": []any{}}
+	}
+	c.mu.Lock()
+	defer c.mu.Unlock()
+	if br := c.coordinatorLocked(gid); br == nil || br.ID != rc.Broker.ID {
+		return fail(16)
+	}
+	g := c.groupLocked(gid)
+	c.expireLocked(g)
+	var m *Member
+	if mid == "" {
+		g.nextMember++
+		mid = fmt.Sprintf("%s-%s-%d", rc.Ev.ClientID, gid, g.nextMember)
+		m = &Member{ID: mid, ClientID: rc.Ev.ClientID}
+		g.Members[mid] = m
+	} else if m = g.Members[mid]; m == nil {
+		return fail(25)
+	}
+	m.lastSeen = time.Now()
+	m.sessionTimeout = time.Duration(refcodec.Int(b["SessionTimeoutMs"])) * time.Millisecond
+	m.rebalanceTO = time.Duration(refcodec.Int(b["RebalanceTimeoutMs"])) * time.Millisecond
+	if rc.Ev.Version == 0 {
+		m.rebalanceTO = m.sessionTimeout
+	}
+	m.Protocols = nil
+	for _, p := range refcodec.Arr(b["Protocols"]) {
+		pm := refcodec.Map(p)
+		m.Protocols = append(m.Protocols, refcodecProtocol{Name: refcodec.Str(pm["Name"]), Metadata: refcodec.Bytes(pm["Metadata"])})
+	}
+	if g.State != GroupPreparingRebalance {
+		g.State = GroupPreparingRebalance
+		g.joinStarted = time.Now()
+		for _, o := range g.Members {
+			o.joined = false
+			o.synced = false
+		}
+	}
+	m.joined = true
+	m.JoinedAt = core.Tick()
+	round := g.Generation
+	g.cond.Broadcast()
+	// barrier: all known members have rejoined and the join window has passed, or the round was completed by someone else
+	for {
+		if g.Generation != round || g.Members[mid] == nil || c.closed || rc.Conn.ClosedByClient() {
+			break
+		}
+		c.expireLocked(g)
+		if g.Members[mid] == nil {
+			break
+		}
+		all := true
+		for _, o := range g.Members {
+			if !o.joined {
+				all = false
+			}
+			if o.joined {
+				o.lastSeen = time.Now() // waiting in the join barrier keeps the session alive
+			}
+		}
+		if all && time.Since(g.joinStarted) >= JoinWindow && g.State == GroupPreparingRebalance {
+			// complete the round
+			g.Generation++
+			g.State = GroupCompletingRebalance
+			g.Assignments = nil
+			// leader: keep if still there, else the earliest joiner
+			if g.Members[g.Leader] == nil {
+				var first *Member
+				for _, o := range g.Members {
+					if first == nil || o.JoinedAt < first.JoinedAt {
+						first = o
+					}
+				}
+				g.Leader = first.ID
+			}
+			// protocol: first of the leader's protocols every member supports
+			g.Protocol = ""
+			for _, p := range g.Members[g.Leader].Protocols {
+				ok := true
+				for _, o := range g.Members {
+					has := false
+					for _, q := range o.Protocols {
+						if q.Name == p.Name {
+							has = true
+						}
+					}
+					if !has {
+						ok = false
+					}
+				}
+				if ok {
+					g.Protocol = p.Name
+					break
+				}
+			}
+			var ids []string
+			for id := range g.Members {
+				ids = append(ids, id)
+			}
+			sort.Strings(ids)
+			g.Events = append(g.Events, GroupEvent{Seq: core.Tick(), Kind: "join-complete", Generation: g.Generation, MemberID: g.Leader, Detail: fmt.Sprint(ids)})
+			g.cond.Broadcast()
+			break
+		}
+		// wait (bounded naps so that the join window and closed connections are noticed)
+		c.mu.Unlock()
+		time.Sleep(300 * time.Microsecond)
+		c.mu.Lock()
+	}
+	if g.Members[mid] == nil {
+		return fail(25)
+	}
+	if g.Generation == round {
+		// connection gone or cluster closed while waiting
+		return fail(27)
+	}
+	if g.Protocol == "" {
+		return fail(23) // INCONSISTENT_GROUP_PROTOCOL
+	}
+	rc.Ev.Fate = FateApplied
+	var members []any
+	if mid == g.Leader {
+		var ids []string
+		for id := range g.Members {
+			ids = append(ids, id)
+		}
+		sort.Strings(ids)
+		for _, id := range ids {
+			var md []byte
+			for _, p := range g.Members[id].Protocols {
+				if p.Name == g.Protocol {
+					md = p.Metadata
+				}
+			}
+			members = append(members, map[string]any{"MemberId": id, "GroupInstanceId": nil, "Metadata": md})
+		}
+	}
+	if rc.Ev.Extra == nil {
+		rc.Ev.Extra = map[string]any{}
+	}
+	rc.Ev.Extra["generation"] = g.Generation
+	rc.Ev.Extra["member"] = mid
+	return map[string]any{"ErrorCode": int64(0), "GenerationId": int64(g.Generation), "ProtocolType": "consumer", "ProtocolName": g.Protocol, "Leader": g.Leader, "MemberId": mid, "Members": members}
+}
+
+func (c *Cluster) syncGroup(rc *ReqCtx) map[string]any {
+	b := rc.Body
+	gid := refcodec.Str(b["GroupId"])
+	mid := refcodec.Str(b["MemberId"])
+	gen := int32(refcodec.Int(b["GenerationId"]))
+	fail := func(code int64) map[string]any {
+		rc.Ev.Code = int16(code)
+		rc.Ev.Fate = FateRejected
+		return map[string]any{"ErrorCode": code, "Assignment": []byte{}}
+	}
+	c.mu.Lock()
+	defer c.mu.Unlock()
+	if code := c.checkMemberLocked(rc, gid, mid, gen, true); code != 0 {
+		return fail(code)
+	}
+	g := c.Groups[gid]
+	if g.State == GroupPreparingRebalance {
+		return fail(27)
+	}
+	if mid == g.Leader && g.State == GroupCompletingRebalance {
+		g.Assignments = map[string][]byte{}
+		dec := map[string]map[string][]int32{}
+		for _, a := range refcodec.Arr(b["Assignments"]) {
+			am := refcodec.Map(a)
+			id := refcodec.Str(am["MemberId"])
+			g.Assignments[id] = refcodec.Bytes(am["Assignment"])
+			dec[id] = decodeAssignment(g.Assignments[id])
+		}
+		g.AssignmentsByGen[g.Generation] = dec
+		g.State = GroupStable
+		g.Events = append(g.Events, GroupEvent{Seq: core.Tick(), Kind: "sync-complete", Generation: g.Generation, MemberID: mid})
+		g.cond.Broadcast()
+	}
+	// followers wait for the leader's assignment
+	for g.State == GroupCompletingRebalance && g.Generation == gen && g.Members[mid] != nil && !c.closed && !rc.Conn.ClosedByClient() {
+		g.Members[mid].lastSeen = time.Now()
+		c.expireLocked(g)
+		c.mu.Unlock()
+		time.Sleep(300 * time.Microsecond)
+		c.mu.Lock()
+	}
+	if g.Members[mid] == nil {
+		return fail(25)
+	}
+	if g.Generation != gen || g.State != GroupStable {
+		return fail(27)
+	}
+	g.Members[mid].synced = true
+	rc.Ev.Fate = FateApplied
+	a := g.Assignments[mid]
+	if a == nil {
+		a = []byte{}
+	}
+	return map[string]any{"ErrorCode": int64(0), "ProtocolType": "consumer", "ProtocolName": g.Protocol, "Assignment": a}
+}
+
+func (c *Cluster) offsetCommit(rc *ReqCtx) map[string]any {
+	b := rc.Body
+	gid := refcodec.Str(b["GroupId"])
+	mid := refcodec.Str(b["MemberId"])
+	gen := int32(refcodec.Int(b["GenerationId"]))
+	c.mu.Lock()
+	defer c.mu.Unlock()
+	code := int64(0)
+	if br := c.coordinatorLocked(gid); br == nil || br.ID != rc.Broker.ID {
+		code = 16
+	} else if rc.Ev.Version >= 1 && gen >= 0 {
+		code = c.checkMemberLocked(rc, gid, mid, gen, true)
+		if code == 0 && c.Groups[gid].State == GroupCompletingRebalance {
+			code = 27
+		}
+	}
+	g := c.groupLocked(gid)
+	var topics []any
+	for _, t := range refcodec.Arr(b["Topics"]) {
+		tm := refcodec.Map(t)
+		name := refcodec.Str(tm["Name"])
+		var parts []any
+		for _, p := range refcodec.Arr(tm["Partitions"]) {
+			pm := refcodec.Map(p)
+			idx := int32(refcodec.Int(pm["PartitionIndex"]))
+			off := refcodec.Int(pm["CommittedOffset"])
+			pc := code
+			if pc == 0 && c.partLocked(name, idx) == nil {
+				pc = 3
+			}
+			if pc == 0 {
+				g.Committed[fmt.Sprintf("%s/%d", name, idx)] = off
+				g.Commits = append(g.Commits, GroupCommit{Seq: core.Tick(), MemberID: mid, Generation: gen, Topic: name, Partition: idx, Offset: off, ClientID: rc.Ev.ClientID})
+			}
+			parts = append(parts, map[string]any{"PartitionIndex": int64(idx), "ErrorCode": pc})
+		}
+		topics = append(topics, map[string]any{"Name": name, "Partitions": parts})
+	}
+	rc.Ev.Code = int16(code)
+	if code == 0 {
+		rc.Ev.Fate = FateApplied
+	} else {
+		rc.Ev.Fate = FateRejected
+	}
+	return map[string]any{"ThrottleTimeMs": int64(0), "Topics": topics}
+}
+
+func (c *Cluster) offsetFetch(rc *ReqCtx) map[string]any {
+	b := rc.Body
+	gid := refcodec.Str(b["GroupId"])
+	c.mu.Lock()
+	defer c.mu.Unlock()
+	rc.Ev.Fate = FateServed
+	code := int64(0)
+	if br := c.coordinatorLocked(gid); br == nil || br.ID != rc.Broker.ID {
+		code = 16
+	}
+	g := c.groupLocked(gid)
+	var topics []any
+	reqTopics, isArr := b["Topics"].([]any)
+	if !isArr || b["Topics"] == nil {
+		// all committed offsets of the group
+		byTopic := map[string][]int32{}
+		for k := range g.Committed {
+			var t string
+			var p int32
+			for i := len(k) - 1; i >= 0; i-- {
+				if k[i] == '/' {
+					t = k[:i]
+					fmt.Sscanf(k[i+1:], "%d", &p)
+					break
+				}
+			}
+			byTopic[t] = append(byTopic[t], p)
+		}
+		var names []string
+		for t := range byTopic {
+			names = append(names, t)
+		}
+		sort.Strings(names)
+		for _, t := range names {
+			ps := byTopic[t]
+			sort.Slice(ps, func(i, j int) bool { return ps[i] < ps[j] })
+			var idx []any
+			for _, p := range ps {
+				idx = append(idx, int64(p))
+			}
+			reqTopics = append(reqTopics, map[string]any{"Name": t, "PartitionIndexes": idx})
+		}
+	}
+	for _, t := range reqTopics {
+		tm := refcodec.Map(t)
+		name := refcodec.Str(tm["Name"])
+		var parts []any
+		for _, p := range refcodec.Arr(tm["PartitionIndexes"]) {
+			idx := int32(refcodec.Int(p))
+			off := int64(-1)
+			pc := code
+			if pc == 0 {
+				if o, ok := g.Committed[fmt.Sprintf("%s/%d", name, idx)]; ok {
+					off = o
+				}
+				if c.partLocked(name, idx) == nil {
+					pc = 3
+				}
+				g.Fetches = append(g.Fetches, GroupFetch{Seq: core.Tick(), ClientID: rc.Ev.ClientID, Topic: name, Partition: idx, Offset: off})
+			}
+			parts = append(parts, map[string]any{"PartitionIndex": int64(idx), "CommittedOffset": off, "CommittedLeaderEpoch": int64(-1), "Metadata": "", "ErrorCode": pc})
+		}
+		topics = append(topics, map[string]any{"Name": name, "Partitions": parts})
+	}
+	rc.Ev.Code = int16(code)
+	return map[string]any{"ThrottleTimeMs": int64(0), "Topics": topics, "ErrorCode": code}
 }
